@@ -58,15 +58,15 @@ def handlePresc (r : Rd) : List String :=
 
 def rowsOf (n : Nat) (xs : List F) : List (List F) := (List.range n).map (fun i => (xs.drop (i * n)).take n)
 
-/-- `n nr np r… p… M(n·n) f(n) u(n) udot_p(np)` -/
+/-- `n nr np r… p… M(n·n) f(n) u(n) udot_p(np) fscale` (`fscale` is echoed: scale of the comparison) -/
 def handleElim (r : Rd) : List String :=
   let (n, r) := r.nat; let (nr, r) := r.nat; let (np, r) := r.nat
   let (ri, r) := r.nats nr; let (pi, r) := r.nats np
-  let (m, r) := r.flts (n * n); let (f, r) := r.flts n; let (u, r) := r.flts n; let (udp, _) := r.flts np
+  let (m, r) := r.flts (n * n); let (f, r) := r.flts n; let (u, r) := r.flts n; let (udp, r) := r.flts np
+  let (fscale, _) := r.flt
   let M := rowsOf n m
   let (udr, tau) := elim M f ri pi udp
-  [fmtFloats "O elim udot" (assemble n ri pi udr udp), fmtFloats "O elim tau" tau,
-   fmtFloats "O elim forces" (unpackTau n pi tau), fmtFloats "O elim power" [motionPower tau pi u]]
+  [fmtFloats "O elim" (assemble n ri pi udr udp ++ tau ++ unpackTau n pi tau ++ [motionPower tau pi u, fscale])]
 
 /-- `a w p t c s` -/
 def handleSin (r : Rd) : List String :=
